@@ -2766,6 +2766,30 @@ pub(crate) mod verif {
 		};
 		path.max_final_value_msat(&used_liquidities, channel_saturation_pow_half)
 	}
+
+	/// What the accessors of a [`CandidateRouteHop::FirstHop`] built from `details` return:
+	/// `(htlc_minimum_msat, effective_capacity, short_channel_id,
+	/// globally_unique_short_channel_id, fees, cltv_expiry_delta)`.
+	pub(crate) fn first_hop_candidate_view(
+		details: &ChannelDetails,
+	) -> (u64, EffectiveCapacity, Option<u64>, Option<u64>, RoutingFees, u32) {
+		let pk = PublicKey::from_slice(&[2; 33]).unwrap();
+		let payer_node_id = NodeId::from_pubkey(&pk);
+		let c = CandidateRouteHop::FirstHop(FirstHopCandidate {
+			details,
+			payer_node_id: &payer_node_id,
+			payer_node_counter: 0,
+			target_node_counter: 1,
+		});
+		(
+			c.htlc_minimum_msat(),
+			c.effective_capacity(),
+			c.short_channel_id(),
+			c.globally_unique_short_channel_id(),
+			c.fees(),
+			c.cltv_expiry_delta(),
+		)
+	}
 }
 
 /// The default `features` we assume for a node in a route, when no `features` are known about that
